@@ -219,14 +219,22 @@ Definition r3_inbox (w : world) (ns : SH) (zres : list (N * (list F * VEC))) (co
                  mk_r2msg j (mk_r2bcast (w_sh w) (w_vv w) zvv c) (share_of K ns c i))
       (filter (fun jc => negb (N.eqb (fst jc) i)) cols).
 
+(* what NewParticipant / the session layer require before the rounds start, and the shape of
+   the environment data: the next and the zero sharing are well formed, the driving quorum is
+   a duplicate-free set of at least two current holders, the anchor (if any) is one of them,
+   the tapes are those of the quorum members, the next holders are a non-empty set *)
+Definition precheck (w : world) (ns : SH) (a : step_args) : bool :=
+  let Q := sa_Q a in
+  wf_sharing_b ns && wf_sharing_b (sa_zs a) && nodup_b Q && Nat.leb 2 (length Q)
+  && forallb (fun j => mem j (holders (w_sh w))) Q
+  && (N.eqb (sa_anchor a) 0 || mem (sa_anchor a) Q)
+  && list_N_eqb (map fst (sa_rnd1 a)) Q && list_N_eqb (map fst (sa_rnd2 a)) Q
+  && nodup_b (holders ns) && Nat.leb 1 (length (holders ns)).
+
 Definition redist_run (w : world) (ns : SH) (a : step_args) : option world :=
   let Q := sa_Q a in
   let zs := sa_zs a in
-  if negb (wf_sharing_b ns && wf_sharing_b zs && nodup_b Q && Nat.leb 2 (length Q)
-           && forallb (fun j => mem j (holders (w_sh w))) Q
-           && (N.eqb (sa_anchor a) 0 || mem (sa_anchor a) Q)
-           && list_N_eqb (map fst (sa_rnd1 a)) Q && list_N_eqb (map fst (sa_rnd2 a)) Q
-           && nodup_b (holders ns))
+  if negb (precheck w ns a)
   then None else
   match coefs_checked (w_sh w) Q with          (* NewParticipant: prevShard.MSP().Accepts(prevShareholders) *)
   | None => None
